@@ -104,6 +104,9 @@ class NP:
 
     @staticmethod
     def _is_boolmask(e):
+        from .values import SSeq
+        if isinstance(e, SSeq):
+            return V.is_bool_like(e.fn(z3.Int('mask!probe')))
         if isinstance(e, STensor) and e.dtype == 'bool' and e.ndim >= 1:
             return True
         if isinstance(e, np.ndarray) and e.dtype == bool:
@@ -114,7 +117,8 @@ class NP:
 
     @staticmethod
     def _mask_rank(e):
-        if isinstance(e, list):
+        from .values import SSeq
+        if isinstance(e, (list, SSeq)):
             return 1
         return e.ndim
 
@@ -129,13 +133,20 @@ class NP:
             return t
         idx = self._expand(t, idx)
         # convert boolean masks to index vectors
+        from .values import SSeq
         conv = []
         for e in idx:
             if self._is_boolmask(e):
-                m = as_tensor(e if not isinstance(e, list) else V.tensor_from_nested(e))
+                if isinstance(e, SSeq):
+                    ef = e.fn
+                    m = STensor((e.length,), lambda i: ef(i), 'bool')
+                else:
+                    m = as_tensor(e if not isinstance(e, list) else V.tensor_from_nested(e))
                 if m.ndim != 1:
                     raise Unsupported('boolean mask of rank > 1 in subscript')
                 conv.append(self.nonzero1(ctx, m))
+            elif isinstance(e, SSeq):
+                conv.append(self._seq_to_tensor(interp, e))
             elif isinstance(e, (list, np.ndarray)):
                 conv.append(as_tensor(e))
             else:
@@ -290,7 +301,18 @@ class NP:
         else:
             member = lambda x: cmpop('!=', mf(x), 0)  # noqa: E731
         ctx.use('numpy.nonzero: ascending indices of the true entries')
-        return SIdx(ctx, m.shape[0], member, base='nz')
+        probe = z3.Int('nz!probe')
+        try:
+            key = (z3.simplify(to_z3(member(probe))).sexpr(), z3.simplify(to_z3(m.shape[0])).sexpr())
+        except Exception:
+            key = None
+        cache = ctx.ghost.setdefault('nonzero_cache', {})
+        if key is not None and key in cache:
+            return cache[key]
+        out = SIdx(ctx, m.shape[0], member, base='nz')
+        if key is not None:
+            cache[key] = out
+        return out
 
     # ------------------------------------------------------------------------------------------
     # stores
